@@ -31,6 +31,7 @@ import struct
 import types
 
 from xdis.codetype import Code2, Code3
+from xdis.cross_types import UnicodeForPython3
 from xdis.version_info import PYTHON3, PYTHON_VERSION_TRIPLE, version_tuple_to_str
 
 try:
@@ -254,6 +255,21 @@ class _Marshaller:
         dispatch[bytearray] = dump_string
 
     def dump_unicode(self, x):
+        if isinstance(x, UnicodeForPython3):
+            # A Python 2 unicode constant as read by xdis: the payload is
+            # kept as UTF-8 bytes in ``value``; str(x) is only its repr.
+            self._write(TYPE_UNICODE)
+            self.w_long(len(x.value))
+            self._write(x.value)
+            return
+        if getattr(self, "in_code2", False) and PYTHON3:
+            # Inside a Python 2 code object a plain string stands for a
+            # Python 2 ``str``; TYPE_UNICODE would turn it into ``unicode``.
+            s = x.encode("utf-8", "surrogatepass")
+            self._write(TYPE_STRING)
+            self.w_long(len(s))
+            self._write(s)
+            return
         self._write(TYPE_UNICODE)
         if not PYTHON3 and self.python_version < (3, 0):
             s = x.encode("utf8")
@@ -319,10 +335,14 @@ class _Marshaller:
         self.w_long(x.co_flags)
         self.dump_string(x.co_code)
 
-        # If running in a Python3 interpreter, some constants will get
-        # converted from string to unicode. For now, let's see if
-        # that's okay.
-        self.dump(x.co_consts)
+        # Strings among the constants of Python 2 code are Python 2 ``str``
+        # objects (see dump_unicode).
+        was_in_code2 = getattr(self, "in_code2", False)
+        self.in_code2 = True
+        try:
+            self.dump(x.co_consts)
+        finally:
+            self.in_code2 = was_in_code2
 
         # The tuple "names" in Python2 must have string entries
         self._write(TYPE_TUPLE)
